@@ -13,8 +13,10 @@ import (
 	"sort"
 	"strings"
 	"sync"
+	"sync/atomic"
 	"testing"
 	"testing/synctest"
+	"time"
 
 	"github.com/tailscale/setec/client/setec"
 	"github.com/tailscale/setec/types/api"
@@ -23,7 +25,7 @@ import (
 func init() { commands["C15"] = runC15 }
 
 type c15Op struct {
-	Op     string  `json:"op"` // put | refresh | grefresh | new | get | cget | err
+	Op     string  `json:"op"` // put | refresh | grefresh | new | get | cget | err | look | read | lbegin | lend
 	Name   int     `json:"name,omitempty"`
 	Tok    int     `json:"tok,omitempty"`
 	Upd    int     `json:"upd,omitempty"`
@@ -31,6 +33,8 @@ type c15Op struct {
 	K      int     `json:"k,omitempty"`
 	Closer bool    `json:"closer,omitempty"`
 	Fail   bool    `json:"fail,omitempty"` // refresh: the request for Name fails
+	Slot   int     `json:"slot,omitempty"` // lbegin/lend: which held caller
+	New    bool    `json:"new,omitempty"`  // lbegin: the held caller is NewUpdater (else LookupSecret)
 	Inner  []c15Op `json:"inner,omitempty"`
 }
 
@@ -108,19 +112,19 @@ func (s *c15Service) GetIfChanged(ctx context.Context, name string, old api.Secr
 	s.mu.Lock()
 	defer s.mu.Unlock()
 	if name == s.fail {
-		s.ans[name] = "RErr"
+		s.ans[name] = fmt.Sprintf("%d, RErr", old)
 		return nil, c15ErrService
 	}
 	sv, ok := s.cur[name]
 	if !ok {
-		s.ans[name] = "RErr"
+		s.ans[name] = fmt.Sprintf("%d, RErr", old)
 		return nil, api.ErrNotFound
 	}
 	if api.SecretVersion(sv.ver) == old {
-		s.ans[name] = "RNotChanged"
+		s.ans[name] = fmt.Sprintf("%d, RNotChanged", old)
 		return nil, api.ErrValueNotChanged
 	}
-	s.ans[name] = fmt.Sprintf("(RValue %d %d)", sv.ver, sv.tok)
+	s.ans[name] = fmt.Sprintf("%d, (RValue %d %d)", old, sv.ver, sv.tok)
 	return &api.SecretValue{Value: c15Value(sv.tok), Version: api.SecretVersion(sv.ver)}, nil
 }
 
@@ -181,6 +185,33 @@ func (x c15UP) err() bool { return x.u.Err() != nil }
 
 var _ io.Closer = (*c15Closer)(nil)
 
+// ---- the window between a lookup's unknown-name check and its flight (F8)
+//
+// lookupSecretInternal calls ctx.Deadline() after LookupSecret / lookupWatcher found the name unknown
+// and before it joins or starts the single flight.  A context whose Deadline method blocks therefore
+// holds a caller exactly in that window, with nothing but the exported API.
+
+type c15GateCtx struct {
+	context.Context
+	gate    chan struct{}
+	once    sync.Once
+	entered atomic.Bool
+}
+
+func (g *c15GateCtx) Deadline() (time.Time, bool) {
+	g.once.Do(func() { g.entered.Store(true); <-g.gate })
+	return time.Time{}, false
+}
+
+type c15Late struct {
+	name      string
+	isNew     bool
+	g         *c15GateCtx
+	done      chan struct{}
+	ok        bool // LookupSecret returned a handle
+	overtaken bool // somebody else's lookup of the name completed while this caller was held
+}
+
 // ---- one scenario
 
 type c15Item struct {
@@ -201,6 +232,7 @@ type c15H struct {
 	inner  map[int][]c15Op
 	busy   map[int]bool
 	gated  bool
+	late   map[int]*c15Late
 	tr     []c15Item
 	blog   [][4]int
 	closes map[int][]int
@@ -211,6 +243,44 @@ func (h *c15H) closed(upd, seq int) {
 	h.mu.Lock()
 	h.closes[upd] = append(h.closes[upd], seq)
 	h.mu.Unlock()
+}
+
+func (h *c15H) tag(k string) {
+	h.mu.Lock()
+	h.tags[k]++
+	h.mu.Unlock()
+}
+
+// the answer(s) the service gave to Get since resetLookups, as a term of type option (option (N * V))
+func (h *c15H) resetLookups() {
+	h.svc.mu.Lock()
+	h.svc.lookups = nil
+	h.svc.mu.Unlock()
+}
+
+func (h *c15H) lookTerm() string {
+	h.svc.mu.Lock()
+	look := "None"
+	if len(h.svc.lookups) > 0 {
+		look = h.svc.lookups[len(h.svc.lookups)-1]
+	}
+	nl := len(h.svc.lookups)
+	h.svc.mu.Unlock()
+	if nl > 1 {
+		look = "(Some None)" // more than one request: cannot agree with the model
+		h.tag("double-lookup")
+	}
+	return look
+}
+
+func (h *c15H) overtake(name string) {
+	h.mu.Lock()
+	defer h.mu.Unlock()
+	for _, l := range h.late {
+		if l.name == name {
+			l.overtaken = true
+		}
+	}
 }
 
 func (h *c15H) emit(it c15Item) {
@@ -271,10 +341,14 @@ func (h *c15H) exec(op c15Op, nested bool) {
 	switch op.Op {
 	case "put":
 		h.svc.mu.Lock()
-		sv := h.svc.cur[name]
-		h.svc.cur[name] = c15SV{ver: sv.ver + 1, tok: op.Tok}
+		if op.Tok < 0 { // the secret is deleted at the service
+			delete(h.svc.cur, name)
+		} else {
+			sv := h.svc.cur[name]
+			h.svc.cur[name] = c15SV{ver: sv.ver + 1, tok: op.Tok}
+		}
 		h.svc.mu.Unlock()
-		h.tags["put"]++
+		h.tag("put")
 	case "refresh":
 		if h.gated {
 			return // would join the gated poll and wait for the gate
@@ -287,12 +361,12 @@ func (h *c15H) exec(op c15Op, nested bool) {
 		err := h.st.Refresh(h.ctx)
 		ans := h.svc.endPoll()
 		h.emit(c15Item{s: fmt.Sprintf("TRefresh %s %s", ans, coqBool(err == nil)), kind: "refresh"})
-		h.tags["refresh"]++
+		h.tag("refresh")
 		if strings.Contains(ans, "RValue") && err == nil {
-			h.tags["refresh-installing"]++
+			h.tag("refresh-installing")
 		}
 		if nested {
-			h.tags["install-during-build"]++
+			h.tag("install-during-build")
 		}
 	case "grefresh":
 		if nested || h.gated {
@@ -313,78 +387,86 @@ func (h *c15H) exec(op c15Op, nested bool) {
 		err := <-done
 		ans := h.svc.endPoll()
 		h.emit(c15Item{s: fmt.Sprintf("TPoll %s %s", ans, coqBool(err == nil)), kind: "poll"})
-		h.tags["gated-refresh"]++
+		h.tag("gated-refresh")
 	case "new":
-		h.mu.Lock()
-		idx := len(h.cnt)
-		h.nextOK[idx] = op.OK
-		if !nested {
-			h.inner[idx] = op.Inner
+		h.guarded(func() { h.doNew(h.ctx, name, op, nested, nil) })
+	case "look":
+		if nested {
+			return
 		}
-		h.mu.Unlock()
-		h.svc.mu.Lock()
-		h.svc.lookups = nil
-		h.svc.mu.Unlock()
-		emitted := false
-		first := func() {
-			if emitted {
-				return
+		h.guarded(func() {
+			h.resetLookups()
+			f, err := h.st.LookupSecret(h.ctx, name)
+			ok := err == nil && f != nil
+			h.emit(c15Item{s: fmt.Sprintf("TLook %s %s %s", coqBytes([]byte(name)), h.lookTerm(), coqBool(ok)), kind: "look"})
+			if ok {
+				h.overtake(name)
 			}
-			emitted = true
-			h.svc.mu.Lock()
-			look := "None"
-			if len(h.svc.lookups) > 0 {
-				look = h.svc.lookups[len(h.svc.lookups)-1]
+			h.tag("look")
+		})
+	case "read":
+		tok := "None"
+		func() {
+			defer func() { recover() }() // Secret panics for an unknown name when lookups are off
+			if f := h.st.Secret(name); f != nil {
+				tok = fmt.Sprintf("(Some %d)", c15TokOf(f()))
 			}
-			nl := len(h.svc.lookups)
-			h.svc.mu.Unlock()
-			if nl > 1 {
-				look = "(Some None)" // more than one request: cannot agree with the model
-				h.tags["double-lookup"]++
-			}
-			h.emit(c15Item{s: fmt.Sprintf("TNew %s %s %s", coqBytes([]byte(name)), coqBool(op.Closer), look), kind: "new"})
+		}()
+		h.emit(c15Item{s: fmt.Sprintf("TRead %s %s", coqBytes([]byte(name)), tok), kind: "read"})
+		h.tag("read")
+	case "lbegin":
+		// a caller that is held between its unknown-name check and its flight
+		if nested || h.gated || h.late[op.Slot] != nil {
+			return
 		}
-		var u c15U
-		var err error
-		if op.Closer {
-			var uu *setec.Updater[*c15Closer]
-			uu, err = setec.NewUpdater(h.ctx, h.st, name, func(b []byte) (*c15Closer, error) {
-				seq, ok := h.build(idx, b, first)
-				if !ok {
-					return nil, c15ErrBuild
-				}
-				return &c15Closer{h: h, upd: idx, seq: seq}, nil
-			})
-			if err == nil {
-				u = c15UC{uu}
-			}
+		g := &c15GateCtx{Context: h.ctx, gate: make(chan struct{})}
+		l := &c15Late{name: name, isNew: op.New, g: g, done: make(chan struct{})}
+		h.resetLookups()
+		if op.New {
+			lop := op
+			lop.Inner = nil
+			go func() { defer close(l.done); h.doNew(g, name, lop, false, l) }()
 		} else {
-			var uu *setec.Updater[c15Plain]
-			uu, err = setec.NewUpdater(h.ctx, h.st, name, func(b []byte) (c15Plain, error) {
-				seq, ok := h.build(idx, b, first)
-				if !ok {
-					return c15Plain{}, c15ErrBuild
-				}
-				return c15Plain{upd: idx, seq: seq}, nil
-			})
-			if err == nil {
-				u = c15UP{uu}
+			go func() {
+				defer close(l.done)
+				f, err := h.st.LookupSecret(g, name)
+				l.ok = err == nil && f != nil
+			}()
+		}
+		synctest.Wait()
+		select {
+		case <-l.done:
+			// it never reached the window (name known, or lookups refused): an ordinary call
+			if !op.New {
+				h.emit(c15Item{s: fmt.Sprintf("TLook %s %s %s", coqBytes([]byte(name)), h.lookTerm(), coqBool(l.ok)), kind: "look"})
+			}
+			h.tag("late-not-held")
+		default:
+			if !g.entered.Load() {
+				panic("C15 harness: a lookup caller is blocked outside the window")
+			}
+			h.late[op.Slot] = l
+			h.emit(c15Item{s: fmt.Sprintf("TLateBegin %s", coqBytes([]byte(name))), kind: "latebegin"})
+			h.tag("late-held")
+		}
+	case "lend":
+		l := h.late[op.Slot]
+		if l == nil || nested || h.gated {
+			return
+		}
+		delete(h.late, op.Slot)
+		h.resetLookups()
+		close(l.g.gate)
+		<-l.done
+		if !l.isNew {
+			h.emit(c15Item{s: fmt.Sprintf("TLate %s %s %s", coqBytes([]byte(l.name)), h.lookTerm(), coqBool(l.ok)), kind: "late"})
+			if l.ok {
+				h.overtake(l.name)
 			}
 		}
-		first() // no builder call happened: NewUpdater was refused before
-		h.mu.Lock()
-		delete(h.inner, idx)
-		if len(h.ups) > idx {
-			h.ups[idx] = u
-		}
-		h.tr = append(h.tr, c15Item{s: fmt.Sprintf("TNewDone %s", coqBool(err == nil)), kind: "newdone"})
-		h.mu.Unlock()
-		h.tags["new"]++
-		if h.gated {
-			h.tags["new-while-poll-in-flight"]++
-		}
-		if err != nil {
-			h.tags["new-failed"]++
+		h.tag("late-finished")
+		if l.overtaken {
+			h.tag("late-on-known")
 		}
 	case "get", "cget":
 		i := h.live(op.Upd)
@@ -413,7 +495,7 @@ func (h *c15H) exec(op c15Op, nested bool) {
 				go func() { defer wg.Done(); res[j] = u.get() }()
 			}
 			wg.Wait()
-			h.tags["concurrent-get"]++
+			h.tag("concurrent-get")
 		}
 		e := u.err()
 		h.mu.Lock()
@@ -422,7 +504,7 @@ func (h *c15H) exec(op c15Op, nested bool) {
 		for j := 0; j < k; j++ {
 			h.emit(c15Item{s: fmt.Sprintf("TGot %d %d %s", i, res[j], coqBool(e)), kind: "got", a: i, b: res[j]})
 		}
-		h.tags["get"]++
+		h.tag("get")
 	case "err":
 		i := h.live(op.Upd)
 		if i < 0 {
@@ -430,6 +512,129 @@ func (h *c15H) exec(op c15Op, nested bool) {
 		}
 		e := h.ups[i].err()
 		h.emit(c15Item{s: fmt.Sprintf("TErr %d %s", i, coqBool(e)), kind: "err"})
+	}
+}
+
+// guarded runs a lookup-capable call while other callers are held in the window.  In the code as it
+// is, a held caller owns nothing, so the call completes.  An implementation in which the held caller
+// already owned the flight would make this call join it and wait for the gate: that is turned into a
+// reported failure with the input as replay instead of a deadlocked bubble.
+func (h *c15H) guarded(f func()) {
+	if len(h.late) == 0 {
+		f()
+		return
+	}
+	done := make(chan struct{})
+	var perr any
+	go func() {
+		defer close(done)
+		defer func() { perr = recover() }()
+		f()
+	}()
+	synctest.Wait()
+	select {
+	case <-done:
+		if perr != nil {
+			panic(perr)
+		}
+		return
+	default:
+	}
+	var ls []*c15Late
+	for _, l := range h.late {
+		ls = append(ls, l)
+	}
+	for _, l := range ls {
+		close(l.g.gate)
+	}
+	<-done
+	for _, l := range ls {
+		<-l.done
+	}
+	h.late = map[int]*c15Late{}
+	panic("a lookup of the name blocked behind a caller that is held before its flight starts")
+}
+
+// NewUpdater(ctx, name); late != nil: the call is made by a held caller (ctx is its gate context)
+func (h *c15H) doNew(ctx context.Context, name string, op c15Op, nested bool, late *c15Late) {
+	// the model index of the updater is its position in registration order; a held caller registers
+	// only after its release, so its index is fixed when its builder is first called
+	idx := -1
+	assign := func() {
+		if idx >= 0 {
+			return
+		}
+		h.mu.Lock()
+		idx = len(h.cnt)
+		h.nextOK[idx] = op.OK
+		if !nested && late == nil {
+			h.inner[idx] = op.Inner
+		}
+		h.mu.Unlock()
+	}
+	if late == nil {
+		assign()
+		h.resetLookups()
+	}
+	emitted := false
+	first := func() {
+		if emitted {
+			return
+		}
+		emitted = true
+		if late != nil && late.g.entered.Load() {
+			h.emit(c15Item{s: fmt.Sprintf("TLateNew %s %s %s", coqBytes([]byte(name)), coqBool(op.Closer), h.lookTerm()), kind: "latenew"})
+			return
+		}
+		h.emit(c15Item{s: fmt.Sprintf("TNew %s %s %s", coqBytes([]byte(name)), coqBool(op.Closer), h.lookTerm()), kind: "new"})
+	}
+	var u c15U
+	var err error
+	if op.Closer {
+		var uu *setec.Updater[*c15Closer]
+		uu, err = setec.NewUpdater(ctx, h.st, name, func(b []byte) (*c15Closer, error) {
+			assign()
+			seq, ok := h.build(idx, b, first)
+			if !ok {
+				return nil, c15ErrBuild
+			}
+			return &c15Closer{h: h, upd: idx, seq: seq}, nil
+		})
+		if err == nil {
+			u = c15UC{uu}
+		}
+	} else {
+		var uu *setec.Updater[c15Plain]
+		uu, err = setec.NewUpdater(ctx, h.st, name, func(b []byte) (c15Plain, error) {
+			assign()
+			seq, ok := h.build(idx, b, first)
+			if !ok {
+				return c15Plain{}, c15ErrBuild
+			}
+			return c15Plain{upd: idx, seq: seq}, nil
+		})
+		if err == nil {
+			u = c15UP{uu}
+		}
+	}
+	first() // no builder call happened: NewUpdater was refused before
+	h.mu.Lock()
+	if idx >= 0 {
+		delete(h.inner, idx)
+		if len(h.ups) > idx {
+			h.ups[idx] = u
+		}
+	}
+	h.tr = append(h.tr, c15Item{s: fmt.Sprintf("TNewDone %s", coqBool(err == nil)), kind: "newdone"})
+	h.mu.Unlock()
+	h.tag("new")
+	if h.gated {
+		h.tag("new-while-poll-in-flight")
+	}
+	if err != nil {
+		h.tag("new-failed")
+	} else {
+		h.overtake(name)
 	}
 }
 
@@ -466,7 +671,7 @@ func c15Render(in c15Input, tr []c15Item, blog [][4]int, closes [][]int) string 
 }
 
 func c15Run(t *testing.T, in c15Input) (rec Record, tr []c15Item, blog [][4]int, closes [][]int) {
-	h := &c15H{t: t, nextOK: map[int]bool{}, inner: map[int][]c15Op{}, busy: map[int]bool{}, closes: map[int][]int{}, tags: map[string]int{}}
+	h := &c15H{t: t, nextOK: map[int]bool{}, inner: map[int][]c15Op{}, busy: map[int]bool{}, closes: map[int][]int{}, tags: map[string]int{}, late: map[int]*c15Late{}}
 	var panicked string
 	bubble(t, func(t *testing.T) {
 		svc := &c15Service{cur: map[string]c15SV{}, ans: map[string]string{}}
@@ -495,9 +700,23 @@ func c15Run(t *testing.T, in c15Input) (rec Record, tr []c15Item, blog [][4]int,
 				if r := recover(); r != nil {
 					panicked = fmt.Sprint(r)
 				}
+				// never leave a held caller behind (the bubble must drain)
+				for _, l := range h.late {
+					close(l.g.gate)
+					<-l.done
+				}
 			}()
 			for _, op := range in.Ops {
 				h.exec(op, false)
+			}
+			// callers still held at the end are released in slot order (the shrinker may have dropped a lend)
+			var slots []int
+			for sl := range h.late {
+				slots = append(slots, sl)
+			}
+			sort.Ints(slots)
+			for _, sl := range slots {
+				h.exec(c15Op{Op: "lend", Slot: sl}, false)
 			}
 		}()
 	})
@@ -539,7 +758,7 @@ func c15Run(t *testing.T, in c15Input) (rec Record, tr []c15Item, blog [][4]int,
 		tags = append(tags, "close-observed")
 	}
 	rec = Record{Kind: "scenario", Input: in, Obs: obs, Key: fmt.Sprintf("%v", obs.Trace),
-		Nontrivial: rebuilt >= 1 && coalesced, Tags: tags,
+		Nontrivial: (rebuilt >= 1 && coalesced) || h.tags["late-on-known"] > 0, Tags: tags,
 		Coq: c15Render(in, tr, blog, closes)}
 	if panicked != "" {
 		rec.Direct = &DirectVerdict{OK: false, What: "panic or construction failure: " + panicked}
@@ -656,6 +875,102 @@ func c15Gen(seed uint64, k int) c15Input {
 	return in
 }
 
+// scenarios around the window between a lookup's unknown-name check and its flight (F8): one or two
+// callers are held in the window, somebody else may complete a lookup of the same name (and create
+// updaters on it), the service may activate a new version, the held callers are released in either
+// order, then reads, polls and Gets.
+func c15GenLate(seed uint64, k int) c15Input {
+	r := NewRand(seed, uint64(915000+k))
+	in := c15Input{Allow: r.IntN(20) != 0}
+	nd := 1 + r.IntN(2)
+	for i := 0; i < nd; i++ {
+		in.Declared = append(in.Declared, i)
+	}
+	in.Server = []int{3, 4}
+	tok := 1
+	nextTok := func() int { tok++; return tok }
+	x := 3 + r.IntN(2) // the name under lookup: exists at the service, not declared
+	switch r.IntN(20) {
+	case 0, 1:
+		x = 5 // exists nowhere: every flight fails
+	case 2:
+		x = 0 // declared: nobody is ever held
+	}
+	add := func(ops ...c15Op) { in.Ops = append(in.Ops, ops...) }
+	if r.IntN(3) == 0 { // an updater on a declared secret, for company
+		add(c15Op{Op: "new", Name: 0, OK: true, Closer: r.IntN(2) == 0})
+	}
+	add(c15Op{Op: "lbegin", Name: x, Slot: 0, New: r.IntN(3) == 0, OK: r.IntN(8) != 0, Closer: r.IntN(2) == 0})
+	two := r.IntN(5) < 2
+	if two {
+		add(c15Op{Op: "lbegin", Name: x, Slot: 1, New: r.IntN(2) == 0, OK: true, Closer: r.IntN(2) == 0})
+	}
+	// who overtakes the held caller(s)
+	switch y := r.IntN(20); {
+	case y < 11:
+		add(c15Op{Op: "new", Name: x, OK: r.IntN(10) != 0, Closer: r.IntN(4) != 0})
+		if r.IntN(3) == 0 {
+			add(c15Op{Op: "new", Name: x, OK: true, Closer: r.IntN(2) == 0})
+		}
+	case y < 16:
+		add(c15Op{Op: "look", Name: x})
+		if r.IntN(2) == 0 {
+			add(c15Op{Op: "new", Name: x, OK: true, Closer: r.IntN(2) == 0})
+		}
+	default: // nobody: the held caller's flight is the one that installs
+	}
+	if r.IntN(4) == 0 {
+		add(c15Op{Op: "read", Name: x})
+	}
+	// the service moves on (or not) while the caller is held
+	if r.IntN(10) < 7 {
+		add(c15Op{Op: "put", Name: x, Tok: nextTok()})
+		if r.IntN(5) == 0 {
+			add(c15Op{Op: "refresh"}, c15Op{Op: "get", Upd: r.IntN(4), OK: true})
+			if r.IntN(2) == 0 {
+				add(c15Op{Op: "put", Name: x, Tok: nextTok()})
+			}
+		}
+	}
+	if r.IntN(10) == 0 { // the secret disappears at the service: the late flight fails
+		in.Ops = append(in.Ops, c15Op{Op: "put", Name: x, Tok: -1})
+	}
+	// release: which held caller goes first
+	if two && r.IntN(2) == 0 {
+		add(c15Op{Op: "lend", Slot: 1})
+		if r.IntN(3) == 0 {
+			add(c15Op{Op: "put", Name: x, Tok: nextTok()})
+		}
+		add(c15Op{Op: "lend", Slot: 0})
+	} else {
+		add(c15Op{Op: "lend", Slot: 0})
+		if two {
+			if r.IntN(3) == 0 {
+				add(c15Op{Op: "put", Name: x, Tok: nextTok()})
+			}
+			add(c15Op{Op: "lend", Slot: 1})
+		}
+	}
+	// what everybody sees afterwards
+	add(c15Op{Op: "read", Name: x})
+	if r.IntN(4) == 0 {
+		add(c15Op{Op: "get", Upd: r.IntN(4), OK: true})
+	}
+	add(c15Op{Op: "refresh"})
+	for j, ng := 0, 1+r.IntN(3); j < ng; j++ {
+		add(c15Op{Op: "get", Upd: j, OK: r.IntN(6) != 0})
+	}
+	add(c15Op{Op: "read", Name: x})
+	if r.IntN(2) == 0 {
+		add(c15Op{Op: "put", Name: x, Tok: nextTok()}, c15Op{Op: "refresh"})
+		for j, ng := 0, 1+r.IntN(3); j < ng; j++ {
+			add(c15Op{Op: "get", Upd: j, OK: true})
+		}
+		add(c15Op{Op: "read", Name: x}, c15Op{Op: "err", Upd: r.IntN(4)})
+	}
+	return in
+}
+
 func runC15(o Opts) {
 	inTest(func(t *testing.T) {
 		out := NewOut(o.Out)
@@ -718,6 +1033,37 @@ func runC15(o Opts) {
 					st.SelfOf = id
 					out.Emit(st)
 					nself++
+				}
+			}
+		}
+		// late flights (F8)
+		nl := 60
+		if o.Tier == "thorough" {
+			nl = 1500
+		}
+		if o.N > 0 {
+			nl = o.N / 6
+		}
+		nls := 0
+		for k := 0; k < nl; k++ {
+			in := c15GenLate(o.Seed, k)
+			rec, tr, blog, closes := c15Run(t, in)
+			id := out.n
+			out.Emit(rec)
+			if nls < 3 && rec.Direct == nil {
+				// self-test: the store serves other bytes than the model's after a late flight
+				for i := len(tr) - 1; i >= 0; i-- {
+					if tr[i].kind == "read" && strings.Contains(tr[i].s, "(Some ") {
+						tr2 := append([]c15Item(nil), tr...)
+						tr2[i].s = tr[i].s[:strings.Index(tr[i].s, "(Some ")] + "(Some 999998)"
+						st := rec
+						st.Coq = c15Render(in, tr2, blog, closes)
+						st.SelfTest = true
+						st.SelfOf = id
+						out.Emit(st)
+						nls++
+						break
+					}
 				}
 			}
 		}
